@@ -68,6 +68,7 @@ func annotationKeyOf(p *Prog, v ssa.Value, depth int) []string {
 }
 
 func runC19(c *Ctx) {
+	runC19ConfigMapName(c)
 	p, fx := c.P, c.Fx
 	// ---- O1: annotation keys agree
 	type kc struct{ pkgA, nameA, pkgB, nameB string }
@@ -95,11 +96,21 @@ func runC19(c *Ctx) {
 			return ok && calleeOf(cc) != nil && funcPkgPath(calleeOf(cc)) == "strconv" && strings.HasPrefix(calleeOf(cc).Name(), "Parse")
 		}) {
 			call := in.(*ssa.Call)
-			keys := annotationKeyOf(p, call.Common().Args[0], 1)
+			// the parsed string may have gone through string helpers first: they are part of "how it is parsed"
+			arg, via := call.Common().Args[0], ""
+			for {
+				tc, isCall := arg.(*ssa.Call)
+				if !isCall || calleeOf(tc) == nil || funcPkgPath(calleeOf(tc)) != "strings" || len(tc.Common().Args) == 0 {
+					break
+				}
+				via += " after strings." + calleeOf(tc).Name()
+				arg = tc.Common().Args[0]
+			}
+			keys := annotationKeyOf(p, arg, 1)
 			if len(keys) == 0 {
 				continue
 			}
-			what := calleeOf(call).Name()
+			what := calleeOf(call).Name() + via
 			for _, a := range call.Common().Args[1:] {
 				if k, ok := a.(*ssa.Const); ok {
 					what += "," + k.Value.ExactString()
@@ -345,4 +356,29 @@ func instrPosOfFirst(forms map[string][]parseSite) (pos token.Pos) {
 		}
 	}
 	return 0
+}
+
+// runC19ConfigMapName (O5): admission's mutation is idempotent only if the config-map name prefix recorded on the
+// pod is reused whenever it exists; a new prefix may be generated only when the annotation is absent. (With a new
+// prefix per invocation the earlier envFrom/volume references stay in the spec and name config maps the binder
+// never creates.)
+func runC19ConfigMapName(c *Ctx) {
+	p, fx := c.P, c.Fx
+	fn := c.Anchor("O5", "pkg/binder/common/gpusharingconfigmap", "", "SetGpuCapabilitiesConfigMapName")
+	if fn == nil {
+		return
+	}
+	gen := p.Func("pkg/binder/common/gpusharingconfigmap", "", "generateConfigMapNamePrefix")
+	n := 0
+	for _, in := range instrsIn(fn, isCallToFn(gen)) {
+		n++
+		ok := fx.allPathsSatisfy(in, func(fs FactSet) bool {
+			_, absent := fs.find(func(f Fact) bool {
+				return !f.Pol && f.T.Op == "extract" && f.T.Name == "1" && f.T.Args[0].Op == "lookup" && strings.HasSuffix(f.T.Args[0].Args[0].String(), ".Annotations")
+			})
+			return absent
+		})
+		c.Check(ok, "O5", "DOM", funcKey(fn)+": a new name prefix is generated only when the pod carries none", instrPos(in), "behind !found", "the config-map name prefix recorded in the pod's annotation can be discarded and regenerated: every further run of the mutating webhook then adds references under a new prefix while the old envFrom/volume stay, and the pod ends up requiring a config map nobody creates")
+	}
+	c.Floor("O5", "DOM prefix generations", n, 1)
 }
